@@ -12,6 +12,32 @@ WARNINGS = [
     ("not-implemented", ".list"), ("missing-newline", "nop nop"), ("meta-typo", "byte 1"), ("excess-quote", ".word 'a'"),
     ("suspicious-name", "mov: nop"), ("label-fixup", "br 7+2\n7: nop"), ("not-implemented", ".title hello"),
 ]
+
+
+def _w_long_list(rng):
+    """an implicit word list continued over many lines, the instruction that ends it on the last line: the note of
+    the warning ('the word list started here') is many lines above its primary position"""
+    k = rng.randint(1, 30)
+    rows = ["%o, %o," % (rng.randrange(512), rng.randrange(512)) for _ in range(k)]
+    return "\n".join(rows) + "\n%o %s" % (rng.randrange(512), rng.choice(["nop", "inc r1", "halt"]))
+
+
+def _w_far_fixup(rng):
+    k = rng.randint(0, 40)
+    return "br 7+2\n" + "".join("nop\n" for _ in range(k)) + "7: nop"
+
+
+def _w_wide_line(rng):
+    """a warning at the end of a very long line (tabs, non-ASCII text in a comment before it on earlier lines)"""
+    return "; " + "щ" * rng.randint(0, 90) + "\n" + "\t" * rng.randint(0, 12) + ".word " + ", ".join("%o" % rng.randrange(8) for _ in range(rng.randint(1, 120))) + " nop"
+
+
+def _w_list_then_text(rng):
+    k = rng.randint(1, 20)
+    return ".word 1,\n" + "".join("%o,\n" % i for i in range(k)) + "5 clr r0"
+
+
+WARNINGS += [("missing-newline", _w_long_list), ("label-fixup", _w_far_fixup), ("missing-newline", _w_wide_line), ("missing-newline", _w_list_then_text)]
 W_NAMES = ["all", "default", "no-all", "no-default", "implicit-operand", "no-implicit-operand", "legacy-deferred", "no-excess-hash",
            "missing-newline", "no-label-fixup", "suspicious-name", "bogus-name", "excess-quote"]
 FILL = ["nop", "mov #1, r0", "inc r2", ".word 1, 2", "clr (r3)+", "k%d = 5", "l%d: dec r1"]
@@ -38,7 +64,7 @@ def gen_source(rng):
         else:
             w = rng.choice(WARNINGS)
             pos = rng.randrange(len(lines) + 1)
-            lines.insert(pos, ".even\n" + w[1])
+            lines.insert(pos, ".even\n" + (w[1](rng) if callable(w[1]) else w[1]))
             planted.append(("warning", w[0]))
     return "\n".join(lines) + "\n", planted
 
@@ -50,7 +76,7 @@ def run(ctx):
                 "(%d kinds) x report format (graphical, bare) x random -W selections x output options (-o bin/raw, --implicit-bin, "
                 "make_bin/make_raw, --lst, none) through main_cli in a scratch directory; distinct = distinct (program, options); "
                 "non-trivial = at least one planted item or output option" % (len(FAULTS) - len(SKIP), len(WARNINGS)))
-    n_prog = 600 if ctx.thorough else 150
+    n_prog = 800 if ctx.thorough else 300
     n_cfg = 6 if ctx.thorough else 4
     reqs, jobs = [], []
     for _ in range(n_prog):
